@@ -114,7 +114,8 @@ def collect_both(ctx, a, b, traces, graphs=None):
 
 VARIANTS = [  # (flavor, keymap, valmap)
     ('trie', 0, 0), ('trie', 1, 1), ('trie', 2, 2), ('trie', 3, 3), ('trie', 0, 2), ('trie', 3, 1), ('trie', 2, 0),
-    ('secure', 0, 0), ('secure', 1, 3),
+    ('trie', 2, 5), ('trie', 0, 5), ('trie', 3, 6), ('trie', 2, 7), ('trie', 0, 7), ('trie', 1, 4),
+    ('secure', 0, 0), ('secure', 1, 3), ('secure', 2, 6),
 ]
 
 
@@ -152,7 +153,7 @@ def run(ctx, replay=None):
     K3 = ['k1', 'k2', 'k3']
     K6 = ['k1', 'k2', 'k3', 'k4', 'k5', 'k6']
     rnd_km = 4 + ctx.seed  # seeded keymap: six 32-byte keys sharing random nibble-prefix lengths
-    allv = VARIANTS + [('trie', rnd_km, ctx.seed % 5), ('secure', rnd_km, (ctx.seed + 1) % 5)]
+    allv = VARIANTS + [('trie', rnd_km, 8 + ctx.seed), ('secure', rnd_km, 100 + ctx.seed), ('trie', 2, 200 + ctx.seed), ('trie', 0, 300 + ctx.seed)]
 
     # ---- all TLC work runs concurrently (exhaustive checks of Trie.tla / StateDB.tla, simulations)
     checks = [('Trie', 'q', 'MC_Trie.tla', 'MC_Trie_q.cfg', True), ('Trie', 'k4', 'MC_Trie.tla', 'MC_Trie_k4.cfg', False),
@@ -196,7 +197,7 @@ def run(ctx, replay=None):
     # ---- ALL bounded histories through the graph (history independence), several concretisations
     depth = 4
     gj = graph_json(graphs['q']) if 'q' in graphs else None
-    gvariants = [(4, v) for v in ([('trie', 0, 0), ('trie', 1, 1), ('trie', 2, 2), ('secure', 0, 3), ('trie', rnd_km, ctx.seed % 5)] if quick else allv)]
+    gvariants = [(4, v) for v in ([('trie', 0, 0), ('trie', 1, 1), ('trie', 2, 5), ('trie', 0, 7), ('secure', 0, 3), ('trie', rnd_km, 8 + ctx.seed)] if quick else allv)]
     if not quick:
         gvariants += [(5, ('trie', 0, 2)), (5, ('trie', 2, 1))]
     if gj:
